@@ -241,7 +241,7 @@ def extract_cont(fn: ast.FunctionDef, is_map: bool) -> Dict[str, bool]:
         if isinstance(st, ast.Return) and result_var and ast.unparse(st.value) == f"bool({result_var})":
             returned = True
             continue
-        raise TranslationError(f"{fn.name}: statement outside the subset: {ast.unparse(st)[:80]}")
+        raise TranslationError(f"{fn.name}: statement outside the subset: {ast.unparse(st)[:80]!r}")
     if not returned or None in (spec["sizeTestEq"], spec["connAnd"], spec["reducerAnd"], spec["init"], spec["elemEq"]):
         raise TranslationError(f"{fn.name}: reduction not recognised")
     if spec["singleton"]:
@@ -322,7 +322,7 @@ def extract_boolean(ev: ast.Module) -> Tuple[bool, bool]:
             if ast.unparse(r) in (res, f"bool({res})"):
                 rewraps = False
                 continue
-        raise TranslationError(f"boolean(): statement outside the subset: {ast.unparse(st)[:80]}")
+        raise TranslationError(f"boolean(): statement outside the subset: {ast.unparse(st)[:80]!r}")
     return passes == {a, b}, rewraps
 
 
